@@ -104,6 +104,7 @@ type SliceV struct {
 	IsNil    bool
 	Str      *string // constant string contents when known
 	IsString bool
+	NilOr    bool // the value is either nil or the described (non-nil) slice; must be tested before use
 }
 
 func (s SliceV) vstr() string {
@@ -113,7 +114,11 @@ func (s SliceV) vstr() string {
 	if s.Str != nil {
 		return fmt.Sprintf("%q", *s.Str)
 	}
-	return fmt.Sprintf("%s[%s : +%s | cap %s]", s.Reg.Name, s.Off.String(), s.Len.String(), s.Cap.String())
+	pre := ""
+	if s.NilOr {
+		pre = "nil|"
+	}
+	return fmt.Sprintf("%s%s[%s : +%s | cap %s]", pre, s.Reg.Name, s.Off.String(), s.Len.String(), s.Cap.String())
 }
 
 // Cell is a tracked memory location (an Alloc instance, or the pointee of a root pointer parameter).
